@@ -324,7 +324,7 @@ func c03LeafRefs(c *eng.Ctx, r *eng.Report) {
 	if ok {
 		ok = false
 		for _, cd := range eng.CondsAt(up[0]) {
-			if m, isM := cd.Cmp(); isM && eng.ResolveLocal(m.X) == ssa.Value(ct[0]) && m.Op == token.EQL && eng.IsNilConst(m.Y) {
+			if m, isM := cd.Cmp(); isM && (eng.ResolveLocal(m.X) == ssa.Value(ct[0]) || loadsJustStored(m.X, ct[0])) && m.Op == token.EQL && eng.IsNilConst(m.Y) {
 				ok = true
 			}
 		}
@@ -394,6 +394,14 @@ func c03Errors(c *eng.Ctx, r *eng.Report) {
 			if call.Call.IsInvoke() && strings.HasSuffix(eng.ShortType(call.Call.Value.Type()), "db.Batch") && (call.Call.Method.Name() == "Write" || call.Call.Method.Name() == "Put") &&
 				strings.HasSuffix(p, "/storage/trie") {
 				check(fn, call, "Batch."+call.Call.Method.Name(), 0)
+			}
+			// a helper of the trie package that writes (or fills) a batch and returns its error carries
+			// that error to its caller: dropping it there drops the batch's error
+			if h := s.Static(); h != nil && h.Blocks != nil && strings.HasSuffix(eng.FuncPkgPath(h), "/storage/trie") && !targets[n] {
+				res := h.Signature.Results()
+				if res.Len() > 0 && res.At(res.Len()-1).Type().String() == "error" && len(batchCalls(h, "Write"))+len(batchCalls(h, "Put")) > 0 {
+					check(fn, call, "batch helper "+eng.FuncName(h), res.Len()-1)
+				}
 			}
 		}
 	}
@@ -939,4 +947,34 @@ func c03CommitBatchIsItsOwn(c *eng.Ctx, r *eng.Report) {
 	if n == 0 {
 		r.Fail(rule, "commit-batch:none", c.Pos(fn.Pos()), "no batch.Write in NodeDatabase.Commit: the rule has lost its anchor")
 	}
+}
+
+// loadsJustStored: v is a load of an address (a captured variable, a field) into
+// which `stored` was written earlier in the same block with no call in between —
+// `if outer = f(); outer != nil` tests f's result.
+func loadsJustStored(v ssa.Value, stored ssa.Value) bool {
+	ld, ok := v.(*ssa.UnOp)
+	if !ok || ld.Op != token.MUL {
+		return false
+	}
+	instrs := ld.Block().Instrs
+	at := -1
+	for i, in := range instrs {
+		if in == ssa.Instruction(ld) {
+			at = i
+		}
+	}
+	for i := at - 1; i >= 0; i-- {
+		switch x := instrs[i].(type) {
+		case *ssa.Store:
+			if x.Addr == ld.X {
+				return x.Val == stored
+			}
+		case ssa.CallInstruction:
+			if si, _ := stored.(ssa.Instruction); ssa.Instruction(x) != si {
+				return false
+			}
+		}
+	}
+	return false
 }
